@@ -71,6 +71,11 @@ def judge_state(ctx, tree, now, case):
                 if rec["kind"] == "file":
                     recorded.setdefault((hr + "/" + rec["path"]) if hr else rec["path"], None)
     med = ref.media(tree)
+    link = os.path.join(ctx.base, "link-to-root")   # the same tree reached through a symbolic link
+    if os.path.lexists(link):
+        os.remove(link)
+    os.symlink(root, link)
+    nforms = 0
     for f in sorted(recorded):
         if f not in med:
             continue   # -sf needs an existing path
@@ -83,11 +88,15 @@ def judge_state(ctx, tree, now, case):
                 if rec["kind"] == "file" and rec["path"] == rel:
                     for h in rec["hashes"]:
                         want.append((g["number"], m["creationdate"], h["format"], h["digest"], h["action"]))
-        forms = [("with-root", [root, "-sf", os.path.join(root, f)]), ("without-root", ["-sf", os.path.join(root, f)])]
-        for form, args in forms:
-            if form == "with-root" and "" not in roots:
+        forms = [("with-root", [root, "-sf", os.path.join(root, f)], None), ("without-root", ["-sf", os.path.join(root, f)], None)]
+        nforms += 1
+        if nforms <= 2:   # other ways of naming the same file
+            forms += [("relative-to-cwd", ["-sf", f], root), ("through-symlink", ["-sf", os.path.join(link, f)], None),
+                      ("with-root-through-symlink", [link, "-sf", os.path.join(link, f)], None)]
+        for form, args, cwd in forms:
+            if form.startswith("with-root") and "" not in roots:
                 continue
-            r2 = ctx.run("info", args, now=now)
+            r2 = ctx.run("info", args, now=now, cwd=cwd)
             stats["cmds"] += 1
             if r2.exc is not None or r2.exit != 0:
                 V("info-sf-fails", f"info {form} -sf {f}: exit {r2.exit} {r2.exc}", form=form, exc=(r2.exc or "").split(":")[0] or None)
@@ -154,7 +163,8 @@ def main(tier, seed):
                    "nested roots) and of the C08 alphabet (nested chains, prefix-named siblings) up to the bound; in each state "
                    "`info ROOT` is compared with the generations / creation dates of every history read independently, and for "
                    "every recorded file `info ROOT -sf f` and `info -sf f` are compared line by line with the digests recorded in "
-                   "its nearest enclosing history; exit 30 without history"}
+                   "its nearest enclosing history (the file also named relative to the working directory and through a symbolic link "
+                   "to the root); exit 30 without history"}
     return eng.finish(cov, eval_case)
 
 
